@@ -151,6 +151,9 @@ mode=$(cat "$d/mode")
 #   gate_after_<i>:<file>      after chunk i wait until <file> exists, then go on to the end
 #   gatefail_after_<i>:<file>  after chunk i wait until <file> exists, then exit 3
 if [ -n "$FAKEGO_MODE" ]; then mode="${FAKEGO_MODE%%:*}"; gate="${FAKEGO_MODE#*:}"; fi
+# an OLDER version of the binary (its last bytes say so) makes fewer system calls: its whole listing is the first chunk
+for a in "$@"; do bin="$a"; done
+if [ -f "$bin" ] && [ "$(tail -c 10 "$bin")" = "OLDVERSION" ]; then cat "$d"/chunk_01; exit 0; fi
 waitgate() { n=0; while [ ! -e "$gate" ] && [ $n -lt 1000 ]; do sleep 0.02; n=$((n+1)); done; }
 case "$mode" in fail_after_0) exit 3;; kill_after_0) kill -9 $PPID; exit 3;; sig_after_0) kill -KILL $$;; esac
 i=0
